@@ -331,7 +331,8 @@ fn starting_sub_multiple(lg_target: u8, lg_min: u8, lg_resize_factor: u8) -> u8 
 /// Compute initial theta for hash table based on sampling probability.
 fn starting_theta_from_sampling_probability(sampling_probability: f32) -> u64 {
     if sampling_probability < 1.0 {
-        (MAX_THETA as f64 * sampling_probability as f64) as u64
+        // at least 1: theta = 0 would screen everything and make every estimate 0 / 0
+        ((MAX_THETA as f64 * sampling_probability as f64) as u64).max(1)
     } else {
         MAX_THETA
     }
